@@ -212,6 +212,26 @@ def o5(tier):
     return r
 
 
+def o6(tier):
+    from props import lir
+    from vlib import scen
+    r = lir.welcome_refusals(tier, 'O6', 'O6')
+    scen.confirm(r, 'O6/process_welcome/sqlite/save_welcome/event/late-input-refusal', 'c16', 'c16_oversized_welcome_leaves_no_group_sqlite')
+    scen.confirm(r, 'O6/process_welcome/memory/replace_group_relays/relays/late-input-refusal', 'c16', 'c16_welcome_with_too_many_relays_leaves_no_group_memory')
+    return r
+
+
 def run(tier, seed, only=None):
-    obs = [('O1', o1), ('O2', o2), ('O3', o3), ('O4', o4), ('O5', o5)]
-    return [f(tier) for k, f in obs if not only or k in only]
+    obs = [('O1', o1), ('O2', o2), ('O3', o3), ('O4', o4), ('O5', o5), ('O6', o6)]
+    out = []
+    for k, f in obs:
+        if only and k not in only:
+            continue
+        try:
+            out.append(f(tier))
+        except Exception as e:                      # an engine that cannot read the tree is an inconclusive obligation, not a crash of the whole check
+            from vlib.common import Result
+            rr = Result(k, 'sqlsym' if type(e).__name__ == 'SqlError' else 'mirsym', f.__doc__ or f.__name__)
+            rr.broken(f'{type(e).__name__}: {e}')
+            out.append(rr)
+    return out
